@@ -270,12 +270,34 @@ def get_pvs(t, w=64):
                 if x is not False: mp[k] = Or(mp[k], x) if k in mp else x
             other = Or(And(c, pa[1]), And(nc, pb[1]))
             if len(mp) <= VS_LIMIT: r = (mp, other)
-    elif t.op in ('add', 'and', 'or', 'xor') and not isinstance(t.args[1], Term):
+    elif t.op in ('add', 'and', 'or', 'xor', 'mul', 'shl', 'lshr', 'sub') and not isinstance(t.args[1], Term):
         pa = get_pvs(t.args[0], w)
         if pa is not None and pa[0]:
             mp = {}
             for k, ck in pa[0].items():
                 k2 = _fold(t.op, k, t.args[1], t.w)
+                mp[k2] = Or(mp[k2], ck) if k2 in mp else ck
+            r = (mp, pa[1])
+    elif t.op in ('add', 'sub', 'mul', 'and', 'or', 'xor', 'shl', 'lshr'):
+        pa = get_pvs(t.args[0], w); pb = get_pvs(t.args[1], w)
+        if pa is not None and pb is not None and pa[0] and pb[0] and len(pa[0]) * len(pb[0]) <= PAIR_LIMIT:
+            mp = {}
+            for k1, c1 in pa[0].items():
+                for k2, c2 in pb[0].items():
+                    c = And(c1, c2)
+                    if c is False: continue
+                    k = _fold(t.op, k1, k2, t.w)
+                    mp[k] = Or(mp[k], c) if k in mp else c
+            if len(mp) <= VS_LIMIT: r = (mp, Or(pa[1], pb[1]))
+    elif t.op in ('zext', 'sext', 'extract'):
+        x = t.args[0] if t.op != 'extract' else t.args[2]
+        pa = get_pvs(x, w)
+        if pa is not None and pa[0]:
+            mp = {}
+            for k, ck in pa[0].items():
+                if t.op == 'zext': k2 = k
+                elif t.op == 'sext': k2 = to_signed(k, t.ow) & mask(t.w)
+                else: k2 = (k >> t.args[1]) & mask(t.w)
                 mp[k2] = Or(mp[k2], ck) if k2 in mp else ck
             r = (mp, pa[1])
     _pvs_memo[t.id] = r
